@@ -38,6 +38,8 @@ func main() {
 		os.Exit(cmdDump(os.Args[2:]))
 	case "list":
 		os.Exit(cmdList(os.Args[2:]))
+	case "bounded":
+		os.Exit(cmdBounded(os.Args[2:]))
 	case "selftest":
 		os.Exit(cmdSelftest(os.Args[2:]))
 	default:
@@ -412,4 +414,29 @@ func explainPaths(o *Obligation) {
 		}
 	}
 	fmt.Printf("      (%d paths tried)\n", len(paths))
+}
+
+func cmdBounded(args []string) int {
+	if len(args) < 1 {
+		usage()
+	}
+	if err := initWorkDir(); err != nil {
+		return 2
+	}
+	defer cleanupWorkDir()
+	tier := "quick"
+	if len(args) > 1 {
+		tier = args[1]
+	}
+	repo := "/repo"
+	if len(args) > 2 {
+		repo = args[2]
+	}
+	br := runBounded(args[0], tier, 0, repo)
+	b, _ := json.MarshalIndent(br, "", " ")
+	fmt.Println(string(b))
+	if br.Error != "" || len(br.Failures) > 0 {
+		return 1
+	}
+	return 0
 }
